@@ -392,7 +392,11 @@ pub fn run(args: &Args) -> Report {
         let mut router = Router::new();
         for item in perm {
             router = match item {
-                0 => router.with_json("/x/y", |_v| Ok(json!("exact-route"))),
+                // exact routes: one below the registry prefix, one AT the registry prefix, one AT the struct root
+                0 => router
+                    .with_json("/x/y", |_v| Ok(json!("exact-route")))
+                    .with_json("/x", |_v| Ok(json!("exact-at-registry-prefix")))
+                    .with_json("/s", |_v| Ok(json!("exact-at-struct-root"))),
                 1 => router.with_registry("/x", reg.clone()),
                 2 => router.with_struct("/s", Recorder { seen: rec.clone() }).0,
                 k => {
@@ -407,7 +411,7 @@ pub fn run(args: &Args) -> Report {
         rep.eval();
         rep.distinct(&("perm", perm));
         perm_checked += 1;
-        for (path, want) in [("/x/y", "\"exact-route\""), ("/x/z", "\"z\""), ("/s/a/b", "{\"n\":2}")] {
+        for (path, want) in [("/x/y", "\"exact-route\""), ("/x/z", "\"z\""), ("/s/a/b", "{\"n\":2}"), ("/x", "\"exact-at-registry-prefix\""), ("/s", "\"exact-at-struct-root\"")] {
             let before: Vec<u64> = hits.iter().map(|h| h.load(Ordering::SeqCst)).collect();
             let req = Message::builder().id(9).query_str(path).query_format(QueryFormat::JsonPointer).body_json(&json!(1)).unwrap().build();
             let req = if path == "/x/z" { Message::builder().id(9).query_str(path).query_format(QueryFormat::JsonPointer).build() } else { req };
@@ -425,7 +429,7 @@ pub fn run(args: &Args) -> Report {
                 match out {
                     Ok(Ok(m)) if m.header.ec == 0 && String::from_utf8_lossy(&m.body) == want => {}
                     other => {
-                        let class = if path == "/x/y" { "exact-route-not-preferred" } else { "mount-response" };
+                        let class = if matches!(path, "/x/y" | "/x" | "/s") { "exact-route-not-preferred" } else { "mount-response" };
                         rep.violation(format!("C07:{class}"), format!("registration order {perm:?} (0=route /x/y,1=registry /x,2=struct /s,3/4=middleware): {which} of {path} gave {:?}, expected body {want}", other.map(|r| r.map(|m| (m.header.ec, String::from_utf8_lossy(&m.body).to_string())))), json!({"order": perm, "path": path}));
                     }
                 }
